@@ -1148,7 +1148,7 @@ fn canon_real(o: &Outcome, dir: &std::path::Path) -> String
 const MODEL_MAX_IMAGE: usize = 1 << 16;
 
 /// `model.asm.run`: the project as it is in `dir` (already written) through the real pipeline and through `Trion.Asm.run`
-fn check_asm_model(cx: &mut Cx, project: &Project, dir: &std::path::Path)
+pub fn check_asm_model(cx: &mut Cx, project: &Project, dir: &std::path::Path)
 {
 	let real = match run_real(dir)
 	{
